@@ -606,6 +606,10 @@ func storeReadBack(r *core.Run) {
 					// vocabulary: such a consensus-state key looks like a key of another kind to suffix / prefix matching
 					h = heightSpelling(rng, keyWords[i-3], (round+i)%2 == 0)
 				}
+				if i == 49 && c.typ != exported.Tendermint {
+					// an EVM chain numbers its blocks from 0 (revision 0): the client anchored at its first block keeps a state at 0-0
+					h = clienttypes.ZeroHeight()
+				}
 				if i >= 50 && i < 56 {
 					// height bytes that a path cleaner would rewrite: "/x/" vs "//x", "/.." and "/./" inside the 16 raw bytes
 					h = clienttypes.NewHeight(uint64(round%3), []uint64{0x2f012f, 0x2f2f01, 0x2f2e2e, 0x012f2e2e, 0x2f2e2f, 0x2e2e2f41}[i-50])
